@@ -6,7 +6,7 @@ S=$1
 [ -f $S/demo_test.go ] || { f=$(ls $S/*_test.go 2>/dev/null | head -1); [ -n "$f" ] && cp $f $S/demo_test.go; }
 WT=/tmp/wt/verify-$$-$RANDOM
 export GOFLAGS=-mod=mod GOPROXY=off
-git -C /repo worktree add -q --detach $WT HEAD || exit 2
+git -C /repo worktree add -q --detach $WT ${BASE:-HEAD} || exit 2
 trap 'git -C /repo worktree remove --force $WT >/dev/null 2>&1' EXIT
 cd $WT
 # where does the demo go? the directory of the first changed file's package unless the demo says otherwise
